@@ -17,8 +17,8 @@ CHECK = dict(
          "Non-trivial = (A) some Close with a collection due found unreachable files beside a non-empty reachable set; (B) >= 2 copies overlapped and >= 1 Close "
          "ran from inside a copy. Distinct by the whole case.",
     jobs=[REPLAY,
-          rapid("prop", "TestVerifProp", 24000, 400000, sq=12, st=16, shrinktime="15s"),
-          rapid("conc", "TestVerifConc", 2400, 40000, sq=4, st=16, shrinktime="20s",
+          rapid("prop", "TestVerifProp", 24000, 360000, sq=12, st=16, shrinktime="15s"),
+          rapid("conc", "TestVerifConc", 2400, 36000, sq=4, st=16, shrinktime="20s",
                 race=dict(quick=False, thorough=True))],
     replay_race=False,
     technique="model-based property testing (rapid): generated histories / schedules interpreted against the real client on real layout directories fed from an "
